@@ -34,6 +34,9 @@ type TaintCfg struct {
 	// Transparent (default-deny mode): module callees outside the root's package that
 	// may be descended into (pure accessor packages).
 	Transparent func(f *ssa.Function) bool
+	// KeyedSink: calls that create or address per-ID state outside the table (e.g. a response stream and its
+	// subscriber, which later act on the table by ID alone): an unverified wire ID as argument is a sink.
+	KeyedSink func(ci CallInfo) (what string, ok bool)
 
 	memo      map[string]*TaintSummary
 	reachMemo map[*ssa.Function]bool
@@ -962,6 +965,16 @@ func (cfg *TaintCfg) callSinks(fn *ssa.Function, b *ssa.BasicBlock, ci ssa.CallI
 		if t := eff(b, recv); t != nil && t.entry {
 			addSink(ci, "call-through-entry:"+short, "calls "+short+" on a value loaded from a table entry obtained with a wire-supplied ID, with no dominating peer check")
 			return
+		}
+	}
+	if cfg.KeyedSink != nil {
+		if what, ok := cfg.KeyedSink(info); ok {
+			for _, a := range c.Args {
+				if t := eff(b, a); t != nil && !t.entry {
+					addSink(ci, "keyed-state:"+short, what)
+					return
+				}
+			}
 		}
 	}
 	for i, a := range c.Args {
